@@ -244,8 +244,18 @@ def correspondence(ctx):
 # =============================================================================================
 
 
-def dump_db(con):
-    """Every table of the main and the temp database, rows ordered by all columns."""
+SCRATCH = ("path_list", "node_list")
+
+
+def dump_db(con, skip_scratch=False):
+    """Every table of the main and the temp database, rows ordered by all columns.
+
+    skip_scratch: leave out temp.path_list / temp.node_list. Every function that uses one of them
+    clears it first (checked by translator.gen_structure.scan_scratch_tables), so what they hold
+    never influences later behaviour; it depends on which transaction ran last, which differs
+    between a run and its twin when hash threads finish in another order. The rollback oracle
+    does NOT skip them: a ROLLBACK restores temp tables too.
+    """
     out = []
     for schema, master in (("main", "sqlite_master"), ("temp", "sqlite_temp_master")):
         names = [r[0] for r in con.execute(f"SELECT name FROM {master} WHERE type = 'table' ORDER BY name")]
@@ -253,6 +263,8 @@ def dump_db(con):
                 "SELECT count(*) FROM sqlite_master WHERE name = 'sqlite_sequence'").fetchone()[0]:
             pass  # already listed
         for name in names:
+            if skip_scratch and schema == "temp" and name in SCRATCH:
+                continue
             rows = con.execute(f'SELECT * FROM {schema}."{name}"').fetchall()
             rows = sorted(repr(r) for r in rows)
             out.append(f"== {schema}.{name} ({len(rows)})")
@@ -363,8 +375,8 @@ class World:
             await self.h.reporter.stop_reporting()
         self.stack.close()
 
-    def dump(self):
-        return dump_db(self.con)
+    def dump(self, skip_scratch=False):
+        return dump_db(self.con, skip_scratch)
 
     async def call(self, req):
         try:
@@ -609,7 +621,7 @@ async def _concurrent_cases(ctx, ncase, fails):
                     await w.db.__aexit__(None, None, None)
                     log[:] = [x for x in log if x[1].startswith("req")]
                 replies = await asyncio.wait_for(asyncio.gather(*tasks), TIMEOUT)
-            final = w.dump()
+            final = w.dump(True)
         # serial reference: the first transaction of each request in lock order; a request whose handler
         # has a second (read-only) transaction is still one unit of the sequential run
         order = []
@@ -621,7 +633,7 @@ async def _concurrent_cases(ctx, ncase, fails):
             replies2 = {}
             for i in order:
                 replies2[i] = await w2.call(reqs[i][1])
-            ref = w2.dump()
+            ref = w2.dump(True)
         ctx.case(("S", json.dumps([r for _, r in reqs]), tuple(order)), True)
         ctx.count(f"S:k={k}")
         if interleaved:
@@ -710,11 +722,11 @@ async def _disconnect_cases(ctx, ncase, fails):
         hold = rng.random() < 0.7
         async with World() as w:
             noticed, inflight = await _serve_frames(w, [_frame(i + 1, r) for i, (_, r) in enumerate(reqs)], mode, hold)
-            got = w.dump()
+            got = w.dump(True)
         async with World() as w2:
-            base = w2.dump()
+            base = w2.dump(True)
             replies = [await w2.call(r) for _, r in reqs]
-            ref = w2.dump()
+            ref = w2.dump(True)
         ctx.case(("D", json.dumps([r for _, r in reqs]), mode, hold), ref != base)
         ctx.count(f"D:{mode}:{'handler_blocked_on_lock' if hold and inflight else 'direct'}")
         if hold and inflight and noticed:
@@ -780,13 +792,13 @@ def search(ctx):
 def replay(ctx, obj):
     w = obj["failure"].get("witness")
     print("replaying", json.dumps(w)[:400])
-    if not w or "request" not in w and "requests" not in w:
+    if not w or "history" not in w:
         oracle(ctx)
         return
     fails = []
 
     async def one():
-        if "history" in w:
+        if True:
             async with World(targets=w.get("targets", False)) as wd:
                 for e in w["history"]:
                     await wd.call(e["request"])
@@ -796,8 +808,6 @@ def replay(ctx, obj):
                 print("reply", reply, "unchanged" if before == after else dump_diff(before, after))
                 if reply[0] == "err" and before != after:
                     fails.append(("rollback", "replay", {**w, "diff": dump_diff(before, after)}))
-        else:
-            oracle(ctx)
 
     with _workdir():
         asyncio.run(asyncio.wait_for(one(), 120))
